@@ -14,7 +14,7 @@ from ..engine import Part, call_limit, innermost_shapepy_frame
 PROPERTY = "C16"
 RULE = (
     "Hypothesis draws factory parameters (side/radius of int, Fraction, float over 1e-3..1e3; centres of every "
-    "numeric kind; nsides 3..60; ndivangle 4..128; ccw and cw vertex lists for polygon) and the result is compared "
+    "numeric kind; nsides 3..400; ndivangle 4..128; ccw and cw vertex lists for polygon) and the result is compared "
     "with closed forms (vertices, area, orientation, membership of centre and far points, circle radial band and "
     "closed-form area). Invalid parameters are a finite grid enumerated exhaustively. A case is non-trivial when "
     "the centre is not the origin or the size is not the default 1 (invalid-grid cases count as non-trivial when "
@@ -362,7 +362,7 @@ def parts(tier):
     size = st.one_of(S.positive_numbers(0.001, 1000.0), S.positive_numbers(0.001, 1000.0),
                      st.sampled_from([10**4, 2.5e5, 10**6, 1e7, F(10**6, 3)]))
     sq = st.fixed_dictionaries({"side": size, "center": centre0})
-    reg = st.fixed_dictionaries({"nsides": st.one_of(st.integers(3, 60), st.just(4)), "radius": size, "center": centre0})
+    reg = st.fixed_dictionaries({"nsides": st.one_of(st.integers(3, 60), st.integers(3, 400), st.just(4)), "radius": size, "center": centre0})
     cir = st.fixed_dictionaries({"ndivangle": st.integers(4, 128), "radius": size, "center": centre0})
     conv = st.fixed_dictionaries({"radius": size, "center": centre0})
 
